@@ -6,3 +6,18 @@ es=json.load(open("/root/.vp/EVIDENCE.schema.json"))
 for f in sorted(glob.glob(f"{V}/evidence/*.json")):
     jsonschema.validate(json.load(open(f)), es); print("ok", f)
 print("manifest ok")
+# evidence level must equal the claimed category, and every claimed property needs an evidence file
+_m = json.load(open("/verif/MANIFEST.json"))
+_bad = 0
+for _c in _m["checks"]:
+    _p = "/verif/evidence/%s.json" % _c["property_id"]
+    try:
+        _e = json.load(open(_p))
+    except FileNotFoundError:
+        print("MISSING evidence", _p); _bad += 1; continue
+    if _e["level"] != _c["level_claimed"]["category"]:
+        print("LEVEL MISMATCH", _c["property_id"], _e["level"], "vs claimed", _c["level_claimed"]["category"]); _bad += 1
+    if _e["level"] == "proof" and _e["coverage"].get("discharged") != _e["coverage"].get("obligations"):
+        print("UNDISCHARGED", _c["property_id"], _e["coverage"].get("discharged"), "/", _e["coverage"].get("obligations")); _bad += 1
+print("levels ok" if not _bad else f"{_bad} evidence problems")
+sys.exit(1 if _bad else 0)
